@@ -29,11 +29,11 @@ STEMS = ['FOO', 'Bar', 'ietf-x', 'A1', 'IF', 'snmpV2']
 
 def plan(tier, seed):
     if tier == 'quick':
-        return {'n': 4000, 'budget_s': 40, 'min_evals': 6000,
-                'floors': {'lookups': 6000, 'hits_checked': 1500, 'notfound_checked': 1500,
-                           'hits_in_subdir': 150, 'hits_in_nested_zip': 150, 'index_hits': 40,
-                           'urls_judged': 300}}
-    return {'n': 70000, 'budget_s': 600, 'min_evals': 100000,
+        return {'n': 24000, 'budget_s': 40, 'min_evals': 30000,
+                'floors': {'lookups': 30000, 'hits_checked': 8000, 'notfound_checked': 8000,
+                           'hits_in_subdir': 800, 'hits_in_nested_zip': 800, 'index_hits': 200,
+                           'urls_judged': 2000}}
+    return {'n': 400000, 'budget_s': 600, 'min_evals': 100000,
             'floors': {'lookups': 100000, 'hits_checked': 30000, 'notfound_checked': 30000,
                        'hits_in_subdir': 3000, 'hits_in_nested_zip': 3000, 'index_hits': 800,
                        'urls_judged': 5000}}
@@ -237,6 +237,7 @@ def run_case(idx, rng, tier, res):
                         for nm, data, d_, nest in listing]
             dirnames = set()
         names = lookups(rng, files) + (list(index)[:1] if index else [])
+        res.evals = len(names)
         for name in names:
             res.count('lookups')
             try:
